@@ -485,6 +485,12 @@ func (e *racEnv) call(x *ECall) gval {
 			return gval{s: "func() *big.Int { w, _ := " + st + ".Width(); return big.NewInt(int64(w)) }()", k: gInt}
 		}
 		return gval{s: "func() bool { _, ok := " + st + ".Width(); return ok }()", k: gBool}
+	case "istr":
+		st := e.eval(a[0]).s
+		if strings.HasPrefix(st, "racIface(") && strings.HasSuffix(st, ")") {
+			st = st[len("racIface(") : len(st)-1]
+		}
+		return gval{s: "racStr(func() string { s, _ := interface{}(" + st + ").(string); return s }())", k: gInt}
 	case "beval":
 		return gval{s: "new(big.Int).SetBytes(" + e.eval(a[0]).s + ")", k: gInt, elem: nil}
 	case "bytes":
